@@ -19,6 +19,9 @@ EXTENDS TraceLib, LibraryListingP
 VARIABLES l, prev
 
 OptsOf(e) == e.opts
+(* the abstract files only: the path string is what went through detect(), it takes no part in the judgement *)
+AbsFiles(e) == [i \in DOMAIN e.files |-> [k |-> e.files[i].k, lib |-> e.files[i].lib, lane |-> e.files[i].lane,
+                                          mate |-> e.files[i].mate, ch |-> e.files[i].ch]]
 ObsOf(e) == [outcome |-> e.outcome, slots |-> e.slots, nlibs |-> e.nlibs, nlanes |-> e.nlanes, printed |-> e.printed]
 
 (* a specific signature for a failing clause: which named deviation of the code (LibraryListingP,      *)
@@ -35,7 +38,7 @@ NameDiagnosis(fs, o, r) ==
        ELSE "other"
 
 Verdict(e) ==
-    LET fs == e.files  o == OptsOf(e)  r == ObsOf(e)
+    LET fs == AbsFiles(e)  o == OptsOf(e)  r == ObsOf(e)
         v == FirstFailing(fs, o, r)
         mode == IF o.glob THEN "glob" ELSE "list"
     IN IF v = "ok" THEN "ok"
@@ -44,7 +47,7 @@ Verdict(e) ==
        ELSE IF v = "LibraryName" THEN "LibraryName|" \o NameDiagnosis(fs, o, r)
        ELSE v \o "|" \o mode
 
-MapOf(e) == IF e.outcome = "returned" THEN Mapping(e.files, ObsOf(e)) ELSE {}
+MapOf(e) == IF e.outcome = "returned" THEN Mapping(AbsFiles(e), ObsOf(e)) ELSE {}
 
 TInit == l = 1 /\ prev = [grp |-> 0, outcome |-> "", map |-> {}, ok |-> FALSE]
 TNext ==
@@ -57,7 +60,7 @@ TNext ==
                 /\ (prev.outcome # e.outcome \/ prev.map # MapOf(e))
              THEN Reject(l, e.tid, "OrderIndependent|" \o (IF e.opts.glob THEN "glob" ELSE "list"))
              ELSE TRUE
-          /\ IF v = "ok" /\ PairingOutOfScope(e.files, OptsOf(e), ObsOf(e))
+          /\ IF v = "ok" /\ PairingOutOfScope(AbsFiles(e), OptsOf(e), ObsOf(e))
              THEN Note(l, e.tid, "pairing_precondition_not_met") ELSE TRUE
           /\ prev' = [grp |-> e.grp, outcome |-> e.outcome, map |-> MapOf(e), ok |-> v = "ok"]
     /\ l' = l + 1
